@@ -365,11 +365,22 @@ pub enum RunOut {
 }
 
 /// drive the real executor step by step, counting steps
+thread_local! {
+    /// executed table weight (sum of the single-instruction weights of every instruction started) of the last `run_counted`
+    pub static LAST_XW: std::cell::Cell<u128> = std::cell::Cell::new(0);
+}
+
 pub fn run_counted(ops: &[OpCode], heap: &HashMap<u16, Value>, max_steps: u64) -> RunOut {
     let mut ex = melvm::VerifExecutor::new(ops.to_vec(), heap.clone());
     let mut steps = 0u64;
+    // the weight the real weigher gives each instruction on its own (a `Loop` alone weighs its extra 1)
+    let single: Vec<u128> = ops.iter().map(|o| Covenant::from_ops(std::slice::from_ref(o)).weight()).collect();
+    let mut xw = 0u128;
+    LAST_XW.with(|c| c.set(0));
     while ex.pc() < ops.len() {
         steps += 1;
+        xw = xw.saturating_add(single[ex.pc()]);
+        LAST_XW.with(|c| c.set(xw));
         if ex.step().is_none() {
             return RunOut::Done(None, steps);
         }
@@ -430,7 +441,7 @@ pub fn run_line(ops: &[OpCode], heap: &HashMap<u16, Value>) -> Option<(String, S
             format!("ok {} steps={} w={} le={}", value_text(&v), steps, w, (steps as u128 <= w) as u8)
         }
     };
-    let _ = mat;
+    let res_text = if res_text == "panic" { res_text } else { format!("{} dbg=@ xw={} flat={}", res_text, LAST_XW.with(|c| c.get()), mat) };
     // the high-level entry point must agree with the stepped run
     let dbg = catch_unwind(AssertUnwindSafe(|| {
         let mut env: Vec<Value> = vec![];
@@ -454,7 +465,7 @@ pub fn run_line(ops: &[OpCode], heap: &HashMap<u16, Value>) -> Option<(String, S
         (Err(_), t) => t == "panic",
     };
     let op = format!("run {} {} {}", hxd(&bytes), heap_text(heap), oracle_text(&log));
-    Some((op, format!("{} dbg={}", res_text, agree as u8)))
+    Some((op, if res_text == "panic" { format!("panic dbg={}", agree as u8) } else { res_text.replace("dbg=@", &format!("dbg={}", agree as u8)) }))
 }
 
 pub fn rand_heap(r: &mut Rng) -> HashMap<u16, Value> {
